@@ -177,6 +177,18 @@ class ImplStack:
 
         disc._notify_service_offered, disc._notify_service_stopped = note_offered, note_stopped
         self.slog_seen = 0
+        # ghost observation of what send_sd draws from the session storage (C08 whole-run theorem)
+        self.txlog = []
+        st = self.p.session_storage
+        orig_assign = st.assign_outgoing
+
+        def assign_outgoing(remote):
+            flag, sid = orig_assign(remote)
+            self.txlog.append(f"{idx_of(remote)}:{int(bool(flag))}:{sid}")
+            return flag, sid
+
+        st.assign_outgoing = assign_outgoing
+        self.tx_seen = 0
 
     def close(self):
         if isinstance(_random.uniform, _UniformDispatch) and _random.uniform.stack is self:
@@ -268,9 +280,11 @@ class ImplStack:
         subs = " ".join(f"{i}>" + store(inst.subscriptions, subkey) for i, inst in enumerate(self.instances))
         slog = ",".join(self.slog[self.slog_seen:])
         self.slog_seen = len(self.slog)
+        tx = ",".join(self.txlog[self.tx_seen:])
+        self.tx_seen = len(self.txlog)
         return (f"now={self.loop.ticks} outs=[{' ; '.join(self.outs[n0:])}] ready=[{','.join(str(r) for r in ready)}] "
                 f"timers=[{','.join(f'{q}@{d}:{n}' for d, q, n in timers)}]"
-                f" found=[{found}] subs=[{subs}] slog=[{slog}]")
+                f" found=[{found}] subs=[{subs}] slog=[{slog}] tx=[{tx}]")
 
     def apply(self, line: str) -> str:
         """line: 'in <input>' | 'run' | 'fire q' | 'adv t'"""
